@@ -33,7 +33,7 @@ TRUSTED = {
     'A14': 'A14 wrap_optimal_fit returns Ok for usize-valued line widths and penalties ("the computation cannot overflow when the line widths are restricted to usize"): '
            'assumed in U17 (floats are uninterpreted), checked within scope by BEC C04 (no overflow error for any usize-valued input)',
     'A15': 'A15 a user-supplied WrapAlgorithm::Custom function returns an ordered partition of the words; a WordSplitter::Custom function returns strictly increasing '
-           'char boundaries inside the word; a WordSeparator::Custom function returns words that tile the line with cached widths equal to their display widths (their authors\' obligations)',
+           'char boundaries inside the word; a WordSeparator::Custom function returns words that tile the line, with spaces-only whitespace, no penalty and cached widths equal to their display widths (their authors\' obligations; the properties quantify over the built-in separators)',
     'R16': 'R16 closure conversion: the body of an `iter::from_fn(move || …)` closure is verified as the `next` method of a struct holding the captured variables '
            '(same tokens, captures prefixed by `self.`); that `collect()` calls `next` until None and keeps the items in order is std behaviour (A4)',
     'R17': 'R17 RefCell<Vec<usize>> is verified as a plain Vec behind &mut self (LineNumbers): every borrow()/borrow_mut() is a temporary that dies within its own '
